@@ -18,6 +18,8 @@ func main() {
 		genC28(os.Args[2])
 	case "c30":
 		genC30(os.Args[2], nil)
+	case "c30cache": // acl c30cache <scripts.ndjson> <trace.ndjson>
+		runC30Cache(os.Args[2], os.Args[3])
 	case "c30replay": // acl c30replay <out> <idx>...: regenerate and keep the given record indices only
 		only := map[int]bool{}
 		for _, a := range os.Args[3:] {
